@@ -141,12 +141,17 @@ Theorem groups_wf_full_refuted : ~ groups_wf_full.
 Proof. exact groups_wf_full_false. Qed.
 Print Assumptions groups_wf_full_refuted.
 
-Theorem d35_refuted : exists ops u g, ~ wf (mux_gsize (run ops) u) (group_view (run ops) u g).
-Proof. exact groups_full_refuted_d35. Qed.
+Theorem d35_refuted :
+  let ops := ONewMux 2 16 :: ONewStd 4 :: ONewStd 4 :: OMuxInsert 0 1 0 nil :: OMuxInsert 0 2 4 nil :: OSetType 1 3 :: nil in
+  ~ wf (mux_gsize (run ops) 0%nat) (group_view (run ops) 0%nat 0%nat).
+Proof. exact d35_witness. Qed.
 Print Assumptions d35_refuted.
 
-Theorem d35_grow_refuted : exists ops u g, ~ wf (mux_gsize (run ops) u) (group_view (run ops) u g).
-Proof. exact groups_full_refuted_d35_grow. Qed.
+Theorem d35_grow_refuted :
+  let ops := ONewMux 2 8 :: ONewStd 2 :: ONewStd 2 :: ONewStd 2 :: OMuxInsert 0 1 0 nil :: OMuxInsert 0 2 2 nil
+             :: OMuxInsert 0 3 4 (1 :: nil) :: OSetType 1 3 :: nil in
+  ~ wf (mux_gsize (run ops) 0%nat) (group_view (run ops) 0%nat 1%nat).
+Proof. exact d35_grow_witness. Qed.
 Print Assumptions d35_grow_refuted.
 
 (* Effect (post-state) theorems. An accepted InsertSignal of a signal that was in no layout: afterwards the
